@@ -52,6 +52,14 @@ func (m *c16Cks) BatchDelete(ctx *restli.RequestContext, keys []*vt.Ck) (*cks.Ba
 	}
 	return r, nil
 }
+func (m *c16Cks) BatchUpdate(ctx *restli.RequestContext, entities map[*vt.Ck]*vt.Leaf) (*cks.BatchResponse, error) {
+	r := &cks.BatchResponse{}
+	for k := range entities {
+		m.seen = append(m.seen, k)
+		r.AddResult(k, &common.BatchEntityUpdateResponse{Status: 204})
+	}
+	return r, nil
+}
 func (m *c16Cks) Create(ctx *restli.RequestContext, entity *vt.Leaf) (*cks.CreatedEntity, error) {
 	return &cks.CreatedEntity{Id: &vt.Ck{Inner: vt.Inner{S: "made"}}}, nil
 }
@@ -169,6 +177,27 @@ func Harness_C16G_Complex(op, n int) {
 			verif.Assert(mc.seen[0].Params.X != nil && *mc.seen[0].Params.X == 1, "params lost")
 		}
 	}
+	verif.Cover("correlated")
+}
+
+// Harness_C16G_MapKeys: batch_update takes its keys from a Go map, whose keys
+// are distinct as pointers but may be equal as complex keys (same key part,
+// params ignored): such a map is refused before anything is sent; otherwise
+// every entry comes back under the caller's own pointer.
+func Harness_C16G_MapKeys(n int) {
+	s1, s2 := c16Keys(n)
+	k1 := c16Ck(s1, verif.Bool(), 1)
+	k2 := c16Ck(s2, verif.Bool(), 2)
+	mc := &c16Cks{}
+	cc, _, lb := c16Clients(mc, &c16Trs{})
+	res, err := cc.BatchUpdate(map[*vt.Ck]*vt.Leaf{k1: {V: "one"}, k2: {V: "two"}})
+	if s1 == s2 {
+		verif.Assert(err != nil && lb.requests == 0, "two map keys that are the same complex key were not rejected before sending")
+		verif.Cover("duplicate")
+		return
+	}
+	verif.Assert(err == nil && res != nil && len(mc.seen) == 2, "batch update with complex keys failed")
+	verif.Assert(len(res.Results) == 2 && res.Results[k1] != nil && res.Results[k2] != nil, "results not filed under the caller's own key values")
 	verif.Cover("correlated")
 }
 
